@@ -26,6 +26,15 @@ for f in sorted(glob.glob(V + "/.build/seedm*.out") + glob.glob(V + "/.build/see
             if m:
                 cur["violations"].append(m.group(2))
 MISS_NOTES = {
+ "C01-C": "first run: exit 0 only because the scratch-copy mode skipped engine S at the time; with engine S following the copy, the usize::cadd obligation is refuted and replayed (prim_usize_cadd)",
+ "C03-D": "first run: quick tier exit 0 (missed): no Bvd x Bvf multiplication at a length that is not a multiple of 64 -> c03_q_heap_mul_* and c01_q_mul_bvd2_l100_f64x2 / _l70_bvfix added",
+ "C09-C": "first run: quick tier exit 0 (missed): no heap Bv longer than the Bvf's capacity -> c09_q_pc_bvdyn1s_f8x1 etc. added",
+ "C09-D": "the change breaks Bvd::resize (hidden state); C09's harnesses start from Inv states and never resize, so C09 itself does not see it (exit 0) - it is caught by C07 and C03, which own that behaviour",
+ "C11-D": "first run: quick tier exit 0 (missed): no slice of elements narrower than the word overshooting the capacity by less than a word -> c11_q_slice_u8_to_f16x1 etc. added",
+ "C13-D": "first run: quick tier exit 0 (missed): every writer accepted whole buffers -> c13_q_writechunk_* / c13_q_writeshort_* added",
+ "C18-D": "first run: exit 2, no failure (missed): C18 had no fixed-capacity growth harness (C19 catches the same change) -> c18_q_fixed_grow_*_pb added",
+ "C20-C": "first run: quick tier exit 0 (missed): no /=, %= of an inline Bv by a heap operand longer than 128 bits -> c20_q_div_ar_afixl3_bvd3top / rem added (divisor with a concrete top word so that allocation sizes are constant)",
+ "C20-D": "first run: quick tier exit 0 (missed): all forms of one pairing agree with each other (wrongly); the integer-vs-vector comparison used a vector of the integer's width -> c20_q_add/sub_f64x3_u64_vs_f64x1 and c01_q_addsub_f8x3_f8x1 etc. added",
  "C01-B": "first run: quick tier exit 0 (missed): only 2-word Bvd subjects were in the quick tier and the lost carry needs a third word -> c01_q_add_bvd3_bvd3 / c01_q_sub_bvd3_bvd2 promoted from thorough to quick",
  "C14-B": "first run: quick tier exit 0 (missed): decimal formatting was thorough-only -> c14_q_dec_bvfix_l3 added to quick",
  "C10-B": "first run: quick tier exit 0 (missed): no harness used the storage-less empty Bvd -> c10_q_hash_bvd0_* / c10_q_hash_bvdyn0_* added",
@@ -50,30 +59,35 @@ def caught(seed, breaks):
         out[p] = {"verdict": v, "runs": [{"exit": r["exit"], "summary": r["summary"]} for r in rs]}
         if seed in MISS_NOTES and p == seed[:3]:
             out[p]["history"] = MISS_NOTES[seed]
-            out[p]["verdict"] += "; " + MISS_NOTES[seed].split(":")[0] + " was a miss, see history"
+            out[p]["verdict"] += " - see history"
     return out
 # ---- independent seeds
 for d in sorted(glob.glob(V + "/seeded/staging/C*")):
     pid = os.path.basename(d)
-    notes = open(d + "/notes.md").read()
-    for x in "AB":
+    for x in "ABCD":
+        if not os.path.exists(d + "/%s.diff" % x):
+            continue
+        nf = d + ("/notes.md" if x in "AB" else "/notes2.md")
+        notes = open(nf).read()
         sid = "%s-%s" % (pid, x)
         out = V + "/seeded/" + sid
         os.makedirs(out, exist_ok=True)
         shutil.copy(d + "/%s.diff" % x, out + "/patch.diff")
         shutil.copy(d + "/demo_%s.rs" % x, out + "/demo.rs")
-        shutil.copy(d + "/notes.md", out + "/notes.md")
+        shutil.copy(nf, out + "/notes.md")
         conf = json.load(open(d + "/confirm_%s.json" % x)) if os.path.exists(d + "/confirm_%s.json" % x) else {}
         first = open(out + "/patch.diff").read()
         files = sorted(set(re.findall(r"^\+\+\+ b/(\S+)", first, re.M)))
         # one-line description: first sentence mentioning "Change X" in the notes
         m = re.search(r"(?:^|\n)#+[^\n]*\b%s\b[^\n]*\n(.*?)(?:\n#|\Z)" % x, notes, re.S)
         what = re.sub(r"\s+", " ", (m.group(1) if m else notes)[:400]).strip()
-        meta = {"id": sid, "breaks": [pid], "files": files,
-                "origin": "written by an independent sub-agent that was given only the text of property %s and a scratch worktree of /repo (nothing from /verif)" % pid,
+        also = {"C09-D": ["C07", "C03"], "C20-D": ["C01"], "C03-D": ["C01"]}.get(sid, [])
+        meta = {"id": sid, "breaks": [pid] + also, "files": files,
+                "origin": ("written by an independent sub-agent that was given only the text of property %s and a scratch worktree of /repo (nothing from /verif)" % pid)
+                          + ("" if x in "AB" else "; second round: additionally told which two code sites the first round had already used, and to look elsewhere"),
                 "what": what, "needs_to_manifest": "see notes.md (section for change %s)" % x,
                 "demo": "demo.rs: integration test(s) using only the public API; fails with the change, passes without",
-                "confirmed": conf, "caught": caught(sid, [pid])}
+                "confirmed": conf, "caught": caught(sid, [pid] + also)}
         json.dump(meta, open(out + "/meta.json", "w"), indent=1)
 # ---- original defects
 for f in glob.glob(V + "/seeded/orig-*/meta.json"):
